@@ -56,6 +56,11 @@ pub fn solve_instance(input_data: serde_json::Value) -> serde_json::Value {
         SwapInfo::NoSwap,
         "Result from min cost flow solver".to_string(),
     );
+    #[cfg(feature = "rssched_verif")]
+    {
+        solver::verif::record_stage("flow", &start_schedule);
+        solver::verif::record_stage("start", start_schedule_with_info.get_schedule());
+    }
 
     let solution = if network.maintenance_considered() {
         println!("\nStarting local search:\n");
@@ -80,6 +85,8 @@ pub fn solve_instance(input_data: serde_json::Value) -> serde_json::Value {
     let start_time_transition_optimization = stdtime::Instant::now();
     let mut optimized_transitions: HashMap<VehicleTypeIdx, Transition> = HashMap::new();
     let schedule = solution.solution().get_schedule();
+    #[cfg(feature = "rssched_verif")]
+    solver::verif::record_stage("local_search", schedule);
     let transition_local_search_solver =
         build_transition_local_search_solver(schedule, network.clone());
     for vehicle_type in network.vehicle_types().iter() {
@@ -105,6 +112,8 @@ pub fn solve_instance(input_data: serde_json::Value) -> serde_json::Value {
         start_time_transition_optimization.elapsed().as_secs_f32()
     );
     schedule_with_optimized_transitions.print_next_day_transitions();
+    #[cfg(feature = "rssched_verif")]
+    solver::verif::record_stage("transitions", &schedule_with_optimized_transitions);
 
     // reassign end depots to be consistent with transitions
     let final_schedule = solution
@@ -117,6 +126,8 @@ pub fn solve_instance(input_data: serde_json::Value) -> serde_json::Value {
         "Final schedule after reassigning end depots".to_string(),
     );
     let final_solution = objective.evaluate(final_schedule_with_info);
+    #[cfg(feature = "rssched_verif")]
+    solver::verif::record_stage("final", final_solution.solution().get_schedule());
 
     let end_time = stdtime::Instant::now();
     let runtime_duration = end_time.duration_since(start_time);
